@@ -205,8 +205,8 @@ async def drive_h11(cfg: dict, ops) -> Tuple[List[dict], List[dict], dict]:
                         view["kinds"][ev[1]] = ev[2]["type"]
                     elif ev[0] == "put":
                         view["puts"].setdefault(ev[1], []).append(ev[2])
-                    elif ev[0] == "upClosed":
-                        view["up_closed"] = True
+                    elif ev[0] in ("upClosed", "switchH2c", "switchPrior"):
+                        view["up_closed"] = True      # after a switch this protocol object is replaced by the wrapper
 
         while True:
             update_view()
